@@ -729,6 +729,17 @@ pub fn check_panic(o: &Outcome) -> Vec<Fail> {
         _ => return v,
     };
     if let (Some((kind, _)), Op::On { op, .. }) = (o.injected, &o.line.op) {
+        // C05 / C15: retain never changes the relative order of the entries that remain — also when it is cut short
+        // by a panic of its predicate or of a key's Hash / Eq in one of its removals
+        if matches!(op, OpKind::RetainIdx(_) | OpKind::RetainIds(_)) && o.panicked {
+            let before: Vec<u64> = pre.ord.iter().map(|e| e.k.tok).filter(|t| post.ord.iter().any(|x| x.k.tok == *t)).collect();
+            let after: Vec<u64> = post.ord.iter().map(|e| e.k.tok).collect();
+            if before != after {
+                for pid in ["C05", "C15"] {
+                    fail(&mut v, pid, format!("`{}` cut short by a panic ({:?}) left the remaining entries in another relative order", op.text(), kind));
+                }
+            }
+        }
         if matches!(kind, Kind::Closure | Kind::Pred) {
             if post.cur > post.max {
                 fail(&mut v, "C16", format!("after a panic in the closure of `{}` current_size {} exceeds max_size {}", op.text(), post.cur, post.max));
@@ -750,14 +761,6 @@ pub fn check_panic(o: &Outcome) -> Vec<Fail> {
                 let still = post.ord.iter().any(|x| x.k.tok == e.k.tok);
                 if !still && !rejected.contains(&e.k.tok) {
                     fail(&mut v, "C16", format!("after a panic in the closure of `{}` entry {} is lost although it was not rejected", op.text(), e.k.id));
-                }
-            }
-            // C05: retain never changes the relative order of the entries that remain — also when it is cut short
-            if matches!(op, OpKind::RetainIdx(_) | OpKind::RetainIds(_)) {
-                let before: Vec<u64> = pre.ord.iter().map(|e| e.k.tok).filter(|t| post.ord.iter().any(|x| x.k.tok == *t)).collect();
-                let after: Vec<u64> = post.ord.iter().map(|e| e.k.tok).collect();
-                if before != after {
-                    fail(&mut v, "C05", format!("`{}` cut short by a panic of its predicate left the remaining entries in another relative order", op.text()));
                 }
             }
             if matches!(kind, Kind::Closure) && (post.ord != pre.ord || post.cur != pre.cur) {
